@@ -11,6 +11,7 @@ import (
 	"runtime/debug"
 	"sort"
 	"strconv"
+	"strings"
 	"sync"
 	"sync/atomic"
 	"time"
@@ -180,6 +181,32 @@ func (r *Run) Parallel(f func(shard, nshards int)) {
 	wg.Wait()
 }
 
+// hungLibraryFrame inspects all goroutine stacks and returns the innermost function of the library
+// under test that some goroutine is executing, with that goroutine's stack.
+func hungLibraryFrame() (string, string) {
+	buf := make([]byte, 1<<22)
+	buf = buf[:runtime.Stack(buf, true)]
+	const mod = "github.com/vapourismo/knx-go/"
+	for _, g := range strings.Split(string(buf), "\n\n") {
+		if !strings.Contains(g, "[running]") && !strings.Contains(g, "[runnable]") {
+			continue
+		}
+		for _, line := range strings.Split(g, "\n") {
+			if strings.HasPrefix(line, mod) {
+				fn := line[len(mod):]
+				if i := strings.LastIndex(fn, "("); i > 0 {
+					fn = fn[:i]
+				}
+				if len(g) > 3000 {
+					g = g[:3000]
+				}
+				return fn, g
+			}
+		}
+	}
+	return "unknown", ""
+}
+
 // Try runs f and reports a panic instead of propagating it.
 func Try(f func()) (panicked bool, value string) {
 	defer func() {
@@ -237,7 +264,9 @@ func Main(prop, tier, verifDir, repo, replay string, budget time.Duration) int {
 		}
 	}
 	r := &Run{Prop: prop, Tier: tier, Repo: repo, Seed: seed, deadline: t0.Add(budget), viol: map[string]*Violation{}, extra: map[string]interface{}{}}
-	func() {
+	finished := make(chan struct{})
+	go func() {
+		defer close(finished)
 		defer func() {
 			if p := recover(); p != nil {
 				r.Violation("INFRA:check-panicked", fmt.Sprintf("%v\n%s", p, debug.Stack()), nil)
@@ -245,6 +274,19 @@ func Main(prop, tier, verifDir, repo, replay string, budget time.Duration) int {
 		}()
 		c.Run(r)
 	}()
+	// Hang watchdog: checks honour the budget themselves (r.Expired), so a run that is still going
+	// long after it means a call into the library does not return. The stacks name the function.
+	hard := 4 * budget
+	if hard < 10*time.Minute {
+		hard = 10 * time.Minute
+	}
+	select {
+	case <-finished:
+	case <-time.After(hard):
+		fn, excerpt := hungLibraryFrame()
+		r.Violation(prop+":hang:"+fn, fmt.Sprintf("the check did not finish within %v (budget %v): a call into the library does not return; goroutine stack:\n%s", hard, budget, excerpt), map[string]string{"hang_in": fn})
+		r.Space("(aborted by hang watchdog)", 0, 0, false, "run abandoned after "+hard.String())
+	}
 
 	known := common.LoadKnown(verifDir)
 	exit := 0
